@@ -11,10 +11,12 @@ import json, os
 from vlib import core
 from checks import e2e
 
+ENABLED = {f["id"] for f in core.known_findings() if f["status"] == "open" and ("C03" in f["property"].split(",") or "C02" in f["property"].split(","))} | {"_none_"}
+
 VLANES = ["val", "val2", "tval"]
 MLANES = ["map", "omap", "tmap"]
 VC = {"VLanes": set(VLANES), "Remotes": {1, 2, 3}}
-MC = {"MLanes": set(MLANES), "Remotes": {1, 2, 3}, "Keys": {1, 2, 3}}
+MC = {"MLanes": set(MLANES), "Remotes": {1, 2, 3}, "Keys": {1, 2, 3}, "EnabledFindings": ENABLED}
 LC = {"Lanes": set(e2e.AGENT_LANES), "SyncLanes": set(e2e.SYNC_LANES), "Remotes": {1, 2, 3}}
 
 
@@ -67,6 +69,38 @@ def systematic(tier):
     return out
 
 
+def handler_bursts(tier):
+    """one handler queues several map operations on existing keys at once (so the lane has a backlog of events),
+    and a sync by a fresh or an already linked remote arrives while they are being emitted"""
+    out = []
+    v = [200]
+
+    def nxt():
+        v[0] += 1
+        return v[0]
+    for lane in ("map", "omap", "tmap"):
+        for nops in (2, 3, 4):
+            for linked_first in (False, True):
+                for order in ("ops-sync", "sync-ops", "ops-sync-ops"):
+                    for cap in (24, 4096):
+                        acts = [{"k": "attach", "r": 1, "cap": 4096}, {"k": "attach", "r": 2, "cap": cap},
+                                {"k": "send", "r": 1, "lane": lane, "op": "link"},
+                                {"k": "send", "r": 1, "lane": "cmd", "op": "cmd", "m": "prog", "tag": nxt(),
+                                 "prog": [{"i": "upd", "lane": lane, "key": kk, "v": nxt()} for kk in (1, 2, 3)]}]
+                        if linked_first:
+                            acts.append({"k": "send", "r": 2, "lane": lane, "op": "link"})
+                        ops = lambda: {"k": "send", "r": 1, "lane": "cmd", "op": "cmd", "m": "prog", "tag": nxt(), "nosettle": True,
+                                       "prog": [({"i": "upd", "lane": lane, "key": 1 + (j % 3), "v": nxt()} if j != 2 else
+                                                 {"i": "rem", "lane": lane, "key": 3}) for j in range(nops)][:3] +
+                                               ([{"i": "upd", "lane": lane, "key": 3, "v": nxt()}] if nops == 4 else [])[:0]}
+                        sync = {"k": "send", "r": 2, "lane": lane, "op": "sync", "nosettle": True}
+                        for part in order.split("-"):
+                            acts.append(ops() if part == "ops" else dict(sync))
+                        acts += [{"k": "read", "r": 2, "n": 2}, {"k": "read", "r": 1, "n": 0}]
+                        out.append(acts)
+    return out
+
+
 def run(tier, out):
     wd = core.workdir("C03")
     core.build_harness("h_runtime", "e2e")
@@ -77,6 +111,8 @@ def run(tier, out):
         out.add(states=r.generated, transitions=r.generated)
         batches.append(("profile %d" % pi, scripts))
     batches.append(("systematic sync placement", systematic(tier)))
+    # repeated: the lane's HashMap iteration order (hence the sync order) differs from instance to instance
+    batches.append(("handler bursts while syncing", handler_bursts(tier) * (4 if tier == "quick" else 12)))
     for bi, (name, scripts) in enumerate(batches):
         cases, results = e2e.run_scripts(wd, scripts, {"store": False}, tag="run%d" % bi)
         for mod, proj, consts, tag in (("Trace_ValueView", lambda log: e2e.proj_value(log, VLANES), VC, "v"),
@@ -101,7 +137,7 @@ def replay(path, out):
     obj = json.load(open(path))["replay"]
     wd = core.workdir("C03_replay")
     case = obj["case"]
-    cases, results = e2e.run_scripts(wd, [case["acts"]], case.get("cfg", {}), tag="replay", final=())
+    cases, results = e2e.run_scripts(wd, [case["acts"]], case.get("cfg", {}), tag="replay", final=(), vary=False)
     rc = 0
     for mod, proj, consts in (("Trace_ValueView", lambda log: e2e.proj_value(log, VLANES), VC),
                               ("Trace_MapReplica", lambda log: e2e.proj_map(log, MLANES), MC),
